@@ -53,7 +53,7 @@ PROP = dict(
     bin="c07",
     run_targets=["Run/RunC07.vo"],
     prop_targets=["Properties/C07.vo"],
-    cases=dict(quick=8000, thorough=80000),
+    cases=dict(quick=8000, thorough=60000),
     level="proof",
     rule="graphs from 9 families (random symmetric at 4 densities, grid, path, star, disconnected, isolated incl. trailing "
          "isolated vertices, complete, cycle, tiny/edgeless/empty) x 3 edge-weight ranges x 7 two-way partition families "
@@ -96,7 +96,7 @@ MANIFEST = dict(
          "that final partition and Metadata coincide; a checker proved equivalent to the property clauses judges every "
          "implementation output; the operators/literals deciding the property are re-read from the source.",
     design_ref="DESIGN.md §7 C07",
-    note="Trusted: Coq kernel; model<->code tie = translator (shape of 9 code fragments) + trace-replay differential runs (8k/80k "
+    note="Trusted: Coq kernel; model<->code tie = translator (shape of 9 code fragments) + trace-replay differential runs (8k/60k "
          "executions); SpecFloat = hardware f64 for the cap formula; HashSet yields each member once; i64 sums do not overflow. "
          "No axioms. Self-loops / non-symmetric matrices are outside the contract (the debug assertion fires there).",
     technique="Coq proof (state invariant over all admissible move sequences; cut_flip lemma of Lib/Graph.v) + translator + "
